@@ -197,6 +197,9 @@ impl<'a, 'tcx> Cx<'a, 'tcx> {
         }
         if let Const::Unevaluated(uv, _) = c.const_ {
             items.push(("item", esc(&path_of(tcx, uv.def))));
+            if let Some(p) = uv.promoted {
+                items.push(("promoted", format!("{}", p.as_usize())));
+            }
         }
         let is_scalar = ty.is_integral() || ty.is_bool() || ty.is_char() || ty.is_floating_point();
         if is_scalar {
@@ -512,6 +515,20 @@ fn body_json<'tcx>(tcx: TyCtxt<'tcx>, did: DefId) -> Option<String> {
         .iter_enumerated()
         .map(|(bb, data)| cx.block(bb.as_usize(), data))
         .collect();
+    let mut promoted = vec![];
+    if !matches!(kind, DefKind::Closure) || true {
+        let proms = tcx.promoted_mir(did);
+        for (pi, pbody) in proms.iter_enumerated() {
+            let penv = TypingEnv::post_analysis(tcx, did);
+            let pcx = Cx { tcx, body: pbody, env: penv };
+            let pblocks: Vec<String> = pbody
+                .basic_blocks
+                .iter_enumerated()
+                .map(|(bb, data)| pcx.block(bb.as_usize(), data))
+                .collect();
+            promoted.push(obj(vec![("i", format!("{}", pi.as_usize())), ("blocks", arr(pblocks))]));
+        }
+    }
     let vis = match kind {
         DefKind::Fn | DefKind::AssocFn => format!("{:?}", tcx.visibility(did)),
         _ => String::from("closure"),
@@ -527,6 +544,7 @@ fn body_json<'tcx>(tcx: TyCtxt<'tcx>, did: DefId) -> Option<String> {
         ("locals", arr(locals)),
         ("debug", arr(dbg)),
         ("blocks", arr(blocks)),
+        ("promoted", arr(promoted)),
     ];
     // impl self type / trait for assoc fns
     if let DefKind::AssocFn = kind {
